@@ -11,6 +11,7 @@ CONSTANTS
   MaxTx = 2
   WithTry = FALSE
   WithNoRS = TRUE
+  WithCb = FALSE
 INVARIANTS ImplAgrees Coherent
 
 CHECK_DEADLOCK FALSE
